@@ -560,8 +560,15 @@ def toCall (s : Sig) (n : Named) : Call :=
 are passed by position also when there are no surplus positionals. -/
 def toCallPO (npo : Nat) (s : Sig) (n : Named) : Call :=
   if n.va.isEmpty then
-    ⟨(s.pos.take npo).filterMap (fun p => kget n.named p.name),
-     n.named.filter (fun p => !((s.posNames.take npo).contains p.1)) ++ n.extra⟩
+    let ps := s.pos.take npo
+    -- the positional-only parameters up to the last supplied one go by position; an unsupplied one
+    -- in between takes its default explicitly
+    let k := ps.length - (ps.reverse.takeWhile fun p => (kget n.named p.name).isNone).length
+    let pre := ps.take k
+    if pre.all (fun p => ((kget n.named p.name).orElse fun _ => p.dflt).isSome) then
+      ⟨pre.filterMap (fun p => (kget n.named p.name).orElse fun _ => p.dflt),
+       n.named.filter (fun p => !((pre.map (·.name)).contains p.1)) ++ n.extra⟩
+    else ⟨[], n.named ++ n.extra⟩
   else toCall s n
 
 /-- Do the two argument sets overlap? (Then the functor demands `override_args`.) -/
